@@ -3,14 +3,17 @@
 // C19 harness: writes packet captures itself, lets the real fq decode them in-process and
 // prints, per case, `<abstract conversations and packet list> TAB <what fq reports>`:
 //
-//	fq <format> [S [K <ip> <port> <skipped> <start> <end> <stream> <ip> <port> <skipped> <start> <end> <stream>]* [R <datagram>]*]*
-//	   T=<same|diff…> X [<conn>.<c|s>.<start><end>.<skip>.<data> | flush]*
+//	fq <format> B=<facts> [S [K <ip> <port> <skipped> <start> <end> <stream> <ip> <port> <skipped> <start> <end> <stream>]* [R <datagram>]*]*
+//	   T=<same|diff…> X [<conn>.<c|s>.<start><end>.<skip>.<data> | flush | N]*
 //
-// K = one tcp_connection (client fields then server fields, in fq's order), R = one entry of
-// ipv4_reassembled, X = the calls gopacket's assembler made into fq's ReassembledSG on the same
-// packets (traced Decoder), T = whether the traced Decoder ended in the state fq reported.
+// S = one section as fq reports it, K = one tcp_connection (client fields then server fields, in fq's order),
+// R = one entry of ipv4_reassembled, X = the calls gopacket's assembler made into fq's ReassembledSG on the same
+// packets (traced Decoder, one per section: `flush` marks the Flush at the section's end, `N` the next section),
+// T = whether the traced Decoders ended in the state fq reported, B = `-` or, for pcapng, per file section
+// <length of the section header block>:<length of the section's last block>.
 // Streams/datagrams: `-` | hex | h<fnv1a64>:<len> (longer than 2048 bytes); trace data may also be
 // r<conn>:<a|b>:<off>:<len> = a slice of the data the case says that endpoint sent.
+// A failed decode is `err:decode B=<facts>` / `err:panic B=<facts>`.
 package main
 
 import (
